@@ -110,7 +110,9 @@ def def_task(t):
         if tag_syms:
             t0 = tag_syms[-1]
             sig.append(t0[:2] + t0[2:].upper() if len(t0) > 2 else t0.upper())
-        sig += sorted(set(param_syms)) + [":foreign", "STR", "LIST1", "LISTDUP", "NUM", "ML"]
+        # (the list symbol and the multi-line symbol alternate between definitions: one-member list / list whose last member repeats
+        # the first; lower-case / upper-case keyword - every definition kind meets each of them under some k)
+        sig += sorted(set(param_syms)) + [":foreign", "STR", "LISTDUP" if k % 2 else "LIST1", "NUM", "TEXT:\nabc\n." if (k // 2) % 2 else "ML"]
         prefix = ("require", '"%s"' % EXT, ";") if ext else ()
         if role == "test":
             prefix = prefix + ("if", ident)
@@ -131,6 +133,22 @@ def def_task(t):
                 r = E.roundtrip(case.text)
                 if r is not None:
                     out.append(E.viol("C20", "roundtrip:" + r[0], case, "ROUNDTRIP", "custom", _kinds(defn), None, r[2]))
+                # the state abstraction merges words that differ only in how a string is spelt; the serialiser does not: every accepted
+                # use is repeated with each of its strings spelt as a multi-line literal (both keyword cases) and with escapes
+                if case.word is not None and not out:
+                    for i, sym in enumerate(case.word):
+                        if sym != "STR" or i < len(prefix):
+                            continue
+                        for alt in ("ML", "TEXT:\nabc\n.", '"a\\"b\\\\"'):
+                            w2 = case.word[:i] + (alt,) + case.word[i + 1:]
+                            c2 = E.execute(w2, commands=(table, T.KNOWN_EXTENSIONS + (EXT,)), want_config=False)
+                            st.executions += 1
+                            out.extend(E.oracle_c01(c2))
+                            if c2.obs.verdict == "ACC" and c2.v.kind == "VALID":
+                                r2 = E.roundtrip(c2.text)
+                                st.executions += 2
+                                if r2 is not None:
+                                    out.append(E.viol("C20", "roundtrip:" + r2[0], c2, "ROUNDTRIP", "custom", _kinds(defn), None, r2[2]))
             return out
 
         st, viols = E.bfs(scn, depth, [E.oracle_c01, E.oracle_c02, E.oracle_c03], commands=(table, T.KNOWN_EXTENSIONS + (EXT,)),
